@@ -7,6 +7,7 @@ import (
 	"path/filepath"
 	"runtime"
 	"sort"
+	"strconv"
 	"strings"
 	"time"
 )
@@ -32,6 +33,8 @@ type checker struct {
 	minimiseRuns    int
 	raceEv          *raceEvidence
 	deaths          int
+	agg             *agg
+	runsDone        int
 }
 
 type foundViolation struct {
@@ -123,49 +126,63 @@ func (c *checker) run() int {
 	if workers < 1 {
 		workers = 1
 	}
-	indices := make([]int, c.n)
-	for i := range indices {
-		indices[i] = i
-	}
-	a := runBatch(c.prop, c.seed, c.tier, indices, workers, []int{1, 4, 16}, "a")
 	// cross-process pass: the same plans in other processes, another partition
 	// (so with another history before each plan), other GOMAXPROCS
 	every := 8
 	if c.tier == "thorough" {
 		every = 10
 		if c.prop == "C02" || c.prop == "C09" {
-			every = 2
+			every = 3
 		}
-	}
-	var sub []int
-	for i := 0; i < c.n; i += every {
-		sub = append(sub, i)
 	}
 	w2 := workers - 3
 	if w2 < 1 {
 		w2 = 1
 	}
-	b := runBatch(c.prop, c.seed, c.tier, sub, w2, []int{16, 1, 4}, "b")
-	c.collect(a)
-	c.crossCompare(a, b)
-	c.handleDeaths(a)
-	if c.prop == "C10" {
-		c.raceHalf(a)
+	c.agg = newAgg()
+	const chunk = 20000
+	wallBudget := time.Duration(0)
+	if v := os.Getenv("DST_WALL_BUDGET_S"); v != "" {
+		if n, err := strconv.Atoi(v); err == nil {
+			wallBudget = time.Duration(n) * time.Second
+		}
+	}
+	for lo := 0; lo < c.n; lo += chunk {
+		hi := lo + chunk
+		if hi > c.n {
+			hi = c.n
+		}
+		var indices, sub []int
+		for i := lo; i < hi; i++ {
+			indices = append(indices, i)
+			if i%every == 0 {
+				sub = append(sub, i)
+			}
+		}
+		a := runBatch(c.prop, c.seed, c.tier, indices, workers, []int{1, 4, 16}, "a")
+		b := runBatch(c.prop, c.seed, c.tier, sub, w2, []int{16, 1, 4}, "b")
+		c.collect(a)
+		c.crossCompare(a, b)
+		c.handleDeaths(a)
+		c.agg.absorb(a, b)
+		if c.prop == "C10" && lo == 0 {
+			c.raceHalf(a)
+		}
+		c.runsDone = hi
+		if len(c.newKeys) > 0 {
+			break // report what was found; no need to keep exploring
+		}
+		if wallBudget > 0 && time.Since(c.t0) > wallBudget {
+			c.traceNote = append(c.traceNote, fmt.Sprintf("stopped after %d of %d runs: wall budget", hi, c.n))
+			break
+		}
 	}
 	c.resolveNew()
-	c.writeEvidence(a, b)
+	c.writeEvidence()
 	if c.exit == 0 {
-		c.say("[dst] property=%s held on everything explored (%d runs, %d requests, %.1fs)", c.prop, len(a.results), totalRequests(a), time.Since(c.t0).Seconds())
+		c.say("[dst] property=%s held on everything explored (%d runs, %d requests, %.1fs)", c.prop, c.agg.runs, c.agg.requests, time.Since(c.t0).Seconds())
 	}
 	return c.exit
-}
-
-func totalRequests(o *runOutcome) int64 {
-	var n int64
-	for _, r := range o.results {
-		n += r.Stats.Requests
-	}
-	return n
 }
 
 func (c *checker) collect(o *runOutcome) {
